@@ -25,6 +25,12 @@ class Obj:
         self.payload = payload
         self.tag = None
 
+    def shallow_copy(self):
+        new = Obj(self.mod, self.cls, None if self.payload is None else type(self.payload)(self.payload))
+        new.fields = dict(self.fields)
+        new.tag = self.tag
+        return new
+
     def __repr__(self):
         if self.payload is not None:
             return "<%s %r>" % (self.cls, self.payload)
@@ -76,9 +82,9 @@ class OFolder(Folder):
         Folder.__init__(self, src, fuel)
         self.interp = None
         self.depth = depth
-        self._level = 0
+        self._tls = __import__("threading").local()
         self.hash_log = []
-        self.stack = []          # qualified names of the package functions being interpreted (innermost last)
+        self._main_stack = []    # qualified names of the package functions being interpreted (innermost last)
         self.stubs = {}          # (module, function qualname) -> fn(args, kw)
         self.overrides = {}      # module name -> {global name: value} used when a function of that module is interpreted
         try:
@@ -111,6 +117,25 @@ class OFolder(Folder):
     @staticmethod
     def _decos(func):
         return [d.split(".")[-1].split("(")[0] for d in func.decorators()]
+
+    # the call stack and the inlining depth are per thread (lazy generators run their body in a thread of their own)
+    @property
+    def stack(self):
+        import threading
+        if threading.current_thread() is threading.main_thread():
+            return self._main_stack
+        st = getattr(self._tls, "stack", None)
+        if st is None:
+            st = self._tls.stack = []
+        return st
+
+    @property
+    def _level(self):
+        return getattr(self._tls, "level", 0)
+
+    @_level.setter
+    def _level(self, v):
+        self._tls.level = v
 
     def _inline(self, func, args, kw, self_obj=None, closure_env=None):
         if self._level >= self.depth:
@@ -168,7 +193,12 @@ class OFolder(Folder):
         f = self._find_method(obj, attr)
         if f is not None:
             d = self._decos(f)
-            if "property" in d or "cached_property" in d:
+            if "cached_property" in d:
+                # functools.cached_property: computed once, then kept in the instance dictionary under the same name
+                val = self._inline(f, [], {}, self_obj=obj)
+                obj.fields[attr] = val
+                return val
+            if "property" in d:
                 return self._inline(f, [], {}, self_obj=obj)
             if "staticmethod" in d:
                 return ClassFunc(f)
@@ -708,6 +738,29 @@ class ObjInterp(BlockEval):
         if forks_matter and getattr(self, "forks", 0) != mark[1]:
             return "a branch on a value the evaluator does not know"
         return None
+
+    def lazy(self, obj, name, *args, **kw):
+        """Call a method that returns a generator WITHOUT running the generator to its end: returns a channel whose next() gives
+        ('value', v) for every yielded value in turn and ('stop', call result) at the end.  The body runs in a thread of its own
+        and only while next() waits for it."""
+        import threading
+        from .absint import YieldChannel, _TLS
+        ch = YieldChannel()
+
+        def body():
+            _TLS.channel = ch
+            try:
+                ch.result = self.callm(obj, name, *args, **kw)
+            except BaseException as e:          # noqa: B902 - reported to the consumer
+                ch.result = ("error", e)
+            finally:
+                with ch.cv:
+                    ch.done = True
+                    ch.cv.notify_all()
+        t = threading.Thread(target=body, daemon=True)
+        ch.thread = t
+        t.start()
+        return ch
 
     def callm(self, obj, name, *args, **kw):
         """Method call on a model object, resolved through the class's MRO: same result convention as call1."""
